@@ -26,6 +26,8 @@ func runC13(c *Check, tier string) {
 	shareRule(c, "R13f", "digests that are combined into an output hash are sorted before they are joined or written to a hasher (same obligations as R09a, output package)", 1, "R09a", func(sub *Check) { ruleR09a(sub) }, func(k string) bool {
 		return strings.Contains(k, "/output.") || strings.Contains(k, "output.Registry") || strings.Contains(k, "output/handlers")
 	})
+	// a forced execution is an execution: its success is decided like any other
+	useFamily(c, "R13g", famExec, 10)
 }
 
 // ruleRecordCacheIndependent: nothing that is stored into the (hashed) output
